@@ -119,7 +119,13 @@ Section PyNum.
   Definition py_pow (x y : num) : num :=
     match x, y with
     | PInt a, PInt b =>
-        if Z.leb 0 b then PInt (int_pow a b)
+        if Z.leb 0 b then
+          (* |a|^b >= 2^1024 cannot be converted by float() (OverflowError at every call site, which all
+             wrap the power in float()): return the infinity instead of computing a million-bit integer *)
+          if Z.leb 2 (Z.abs a) && Z.leb 1024 b
+          then PFloat (let inf := f_ofZ O (Z.shiftl 1 2000) in
+                       if Z.ltb a 0 && Z.odd b then f_neg O inf else inf)
+          else PInt (int_pow a b)
         else PFloat (float_pow (f_ofZ O a) (f_ofZ O b))
     | _, _ => PFloat (float_pow (to_f x) (to_f y))
     end.
